@@ -82,6 +82,7 @@ type sliceReader struct {
 	failAt int        // absolute offset at which Read fails (-1 = never)
 	err    error
 	reads  int
+	oneShot bool // the error is delivered once (together with the bytes before failAt); later Reads succeed
 }
 
 func (s *sliceReader) Read(p []byte) (int, error) {
@@ -99,6 +100,9 @@ func (s *sliceReader) Read(p []byte) (int, error) {
 		}
 		copy(p, s.b[s.pos:s.pos+n])
 		s.pos += n
+		if s.oneShot {
+			s.failAt = -1
+		}
 		return n, s.err
 	}
 	if s.pos+n > len(s.b) {
@@ -293,8 +297,35 @@ func (c *hCtx) checkFailing() {
 			}
 		}
 	}
+	// an error returned together with a partial read and not repeated by the next Read (a transient device fault):
+	// the source did return an error, so the verdict must be (false, err) — a read loop that looks only at the byte
+	// count would carry on and judge the stream (seed R8-D)
+	for _, w := range workflows(c.req.Budget) {
+		sample := w.bytes / 20
+		if w.bytes == 50*125000 {
+			sample = 125000
+		}
+		for _, off := range []int{1, sample + 1, 7*sample + sample/2, w.bytes - 1} {
+			c.resp.Cases[name]++
+			data := goodBytes(c.req.Seed+11, w.bytes)
+			if sample == 2500 {
+				data = allPassStream(c.req.Seed+11, w.bytes/sample, sample)
+			}
+			got := runWF(w.f, safeReader(&sliceReader{b: data, failAt: off, err: custom, oneShot: true}), 30*time.Second+limitFor(w))
+			in := map[string]interface{}{"workflow": w.name, "fail_offset": off, "error": custom.Error(), "one_shot_error_with_partial_read": true}
+			if got.timeout || got.pan != "" || got.ok || got.err == "" {
+				c.report(name, in, got.String(), "(false, non-nil error) within bounded time")
+				return
+			}
+		}
+	}
 	for _, nb := range []int{16, 100} {
 		c.resp.Cases[name]++
+		ok1, err1 := SingleDetect(&sliceReader{b: goodBytes(1, nb), failAt: nb / 2, err: custom, oneShot: true}, nb)
+		if ok1 || err1 == nil {
+			c.report(name, map[string]interface{}{"workflow": "SingleDetect", "numByte": nb, "one_shot_error_with_partial_read_at": nb / 2}, fmt.Sprint(ok1, err1), "(false, error)")
+			return
+		}
 		ok, err := SingleDetect(&sliceReader{b: goodBytes(1, nb), failAt: nb - 1, err: io.EOF}, nb)
 		if ok || err == nil {
 			c.report(name, map[string]interface{}{"workflow": "SingleDetect", "numByte": nb}, fmt.Sprint(ok, err), "(false, error)")
